@@ -85,6 +85,13 @@ pub struct StorageEngine {
     logical_time: AtomicU64,
     /// KG names pending async cleanup - prevents same-name recreation and blocks persist writes
     dropping_kgs: parking_lot::RwLock<HashSet<String>>,
+    /// One write ticket per shard (`{kg}:{relation}`), held by a write from the moment it draws
+    /// its logical time until it has been applied in memory. Recovery orders a shard's updates
+    /// by logical time while the running engine applies them in lock-acquisition order: without
+    /// the ticket two concurrent writes to the same relation (insert t || delete t) could be
+    /// applied in one order and recovered in the other, so a restart changed the relation.
+    /// Readers and writers of other relations are not affected.
+    shard_write_tickets: DashMap<String, Arc<parking_lot::Mutex<()>>>,
 }
 
 /// Single knowledge graph instance
@@ -142,6 +149,7 @@ impl StorageEngine {
             persist,
             logical_time: AtomicU64::new(1),
             dropping_kgs: parking_lot::RwLock::new(HashSet::new()),
+            shard_write_tickets: DashMap::new(),
         };
 
         // Load existing knowledge graphs from persist layer
@@ -490,8 +498,11 @@ impl StorageEngine {
             return Err(StorageError::KnowledgeGraphNotFound(kg.to_string()));
         }
 
-        // Generate shard name and logical time
+        // Generate shard name and logical time (under the shard's write ticket: log order =
+        // apply order for writes to the same relation)
         let shard = format!("{kg}:{relation}");
+        let ticket = self.shard_write_ticket(&shard);
+        let _ticket_guard = ticket.lock();
         let time = self.logical_time.fetch_add(1, Ordering::SeqCst);
 
         // Create DD-style updates (+1 diff for insert)
@@ -612,8 +623,10 @@ impl StorageEngine {
             return Err(StorageError::KnowledgeGraphNotFound(kg.to_string()));
         }
 
-        // Generate shard name and logical time
+        // Generate shard name and logical time (under the shard's write ticket, see insert)
         let shard = format!("{kg}:{relation}");
+        let ticket = self.shard_write_ticket(&shard);
+        let _ticket_guard = ticket.lock();
         let time = self.logical_time.fetch_add(1, Ordering::SeqCst);
 
         // Create DD-style updates (-1 diff for delete)
@@ -637,6 +650,19 @@ impl StorageEngine {
         drop(db);
         drop(dropping_guard);
         result
+    }
+
+    /// The write ticket of a shard (see `shard_write_tickets`).
+    fn shard_write_ticket(&self, shard: &str) -> Arc<parking_lot::Mutex<()>> {
+        if let Some(ticket) = self.shard_write_tickets.get(shard) {
+            return Arc::clone(&ticket);
+        }
+        Arc::clone(
+            &self
+                .shard_write_tickets
+                .entry(shard.to_string())
+                .or_insert_with(|| Arc::new(parking_lot::Mutex::new(()))),
+        )
     }
 
     /// Replace tuples of a relation: delete `deletes`, then insert `inserts`, as one operation.
@@ -703,6 +729,8 @@ impl StorageEngine {
         }
 
         let shard = format!("{kg}:{relation}");
+        let ticket = self.shard_write_ticket(&shard);
+        let _ticket_guard = ticket.lock();
         let delete_time = self.logical_time.fetch_add(2, Ordering::SeqCst);
         let insert_time = delete_time + 1;
 
